@@ -99,6 +99,12 @@ def template_family(methods, rng, n):
             continue
         c = "R.%s(%s, %s)" % (m, pat, json.dumps(tpl))
         out.append(((m, "template-family", h([R, c])), WRAP % (R, c, R)))
+        if i % 5 == 0:
+            # a function replacer of every kind (built-in functions and constructors are functions too)
+            fn = rng.choice(["String", "Number", "Boolean", "Array", "Math.abs", "parseInt", "String.fromCharCode", "isNaN", "function (m) { return m + m; }", "(m, a) => '<' + a + '>'",
+                             "function () { return arguments.length; }", "(function (m) { return this === undefined; }).bind(null)", "function (m) { return undefined; }", "function (m) { return null; }"])
+            c2 = "R.%s(%s, %s)" % (m, pat, fn)
+            out.append(((m, "template-family", h([R, c2])), WRAP % (R, c2, R)))
     return out
 
 
